@@ -18,6 +18,10 @@ namespace DV
 theorem C03_tables_wellformed :
     allClassesWF Gen.dict Gen.classes Gen.classes.length = true := by decide +kernel
 
+/-- For every class of the working tree: an attribute is a list after construction exactly when its annotation says
+    `list[...]` (a repeatable AVP decoded into an attribute that starts as `None` would keep only its last value). -/
+theorem C03_tables_list_defaults : listDefaultMismatches Gen.classes Gen.annotatedLists = [] := by decide +kernel
+
 /-- No dictionary name, normalised the way `UndefinedMessage` exposes it,
     collides with an existing member of the untyped message classes. -/
 theorem C03_undefined_names : Gen.undefNameClashes = [] := by decide
